@@ -239,8 +239,12 @@ def _make(prop):
     if prop == "cw":
         from beyond.propagators.cw import ClohessyWiltshire
         import beyond.frames.frames as fr
+        from beyond.orbits.man import ImpulsiveMan
         p = ClohessyWiltshire(6.8e6)
-        return Orbit([-600.0, -1500.0, 10.0, 0.1, 1.5 * p.n * 600, 0.0], d0, "cartesian", fr.Hill, p), d0
+        o = Orbit([-600.0, -1500.0, 10.0, 0.1, 1.5 * p.n * 600, 0.0], d0, "cartesian", fr.Hill, p)
+        # a burn dated exactly at the epoch ("burn now") and a later one
+        o.maneuvers = [ImpulsiveMan(d0, [0.0, 0.05, 0.0]), ImpulsiveMan(d0 + timedelta(seconds=1000), [0.01, -0.02, 0.0])]
+        return o, d0
     raise ValueError(prop)
 
 
